@@ -24,6 +24,7 @@ _COUNTER = [0]
 _ACTORS: dict = {}
 _CHOOSER = [None]
 WAIT_LOG: list = []  # (batch size, chosen index) per ray.wait call; cleared by reset()
+CURRENT_JOB: list = []  # stack of names of the remote functions whose body is executing
 
 
 class ObjectRef:
@@ -90,7 +91,12 @@ class _RemoteFunction:
     def remote(self, *args, **kwargs):
         args = [get(a) if isinstance(a, ObjectRef) else a for a in args]
         a, k = _copy((args, kwargs))
-        return _store(self._fn(*a, **k), tag=self.__name__)
+        CURRENT_JOB.append(self.__name__)
+        try:
+            result = self._fn(*a, **k)
+        finally:
+            CURRENT_JOB.pop()
+        return _store(result, tag=self.__name__)
 
     def options(self, **kw):
         return self
